@@ -85,7 +85,8 @@ pub fn run_sizes(cfg: &SorterCfg, sizes: &[usize], finish: bool) -> Result<Sorte
 }
 
 fn menu(st: &SorterState, t: usize, growth_cap: usize) -> Vec<usize> {
-    let rem = st.buffer_len - st.entries_len - 16 * st.bounds_count;
+    // harness arithmetic must never be the thing that panics
+    let rem = st.buffer_len.saturating_sub(st.entries_len).saturating_sub(16 * st.bounds_count);
     let mut m = vec![0usize, 1];
     if rem >= 16 {
         m.push(rem - 16); // exactly the remaining space
@@ -193,8 +194,17 @@ fn read_paths(acc: &mut Acc) {
         }
     }
     for spec in &specs {
+        // warm-up run: lazily initialised statics / thread-locals (codec contexts, scratch buffers)
+        // are allowed to stay alive; only what a second identical run leaves behind is a leak
+        {
+            let mut warm = Acc::default();
+            if let Some((model, bytes, _)) = crate::qcheck::build_or_report("C17", spec, &mut warm) {
+                let qs = crate::query::scan_queries();
+                crate::qcheck::run_queries("C17", spec, &bytes, &model, &qs, &mut warm);
+            }
+        }
         let live_before = calloc::live();
-        let mut harness_retained = false;
+        let harness_retained;
         {
             let mut local = Acc::default();
             if let Some((model, bytes, _)) = crate::qcheck::build_or_report("C17", spec, &mut local) {
@@ -350,7 +360,7 @@ pub fn run(tier: Tier) -> i32 {
         let mut cmd = Command::new("cargo");
         cmd.current_dir(hd.join("vmiri"))
             .args(["+nightly", "miri", "run", "--offline", "-q", "--", budget, &p.to_string(), &parts.to_string()])
-            .env("MIRIFLAGS", "-Zmiri-disable-isolation")
+            .env("MIRIFLAGS", "-Zmiri-disable-isolation -Zmiri-symbolic-alignment-check")
             .env("CARGO_TARGET_DIR", hd.join("target/miri-target"))
             .stdout(std::process::Stdio::piped())
             .stderr(std::process::Stdio::piped());
@@ -381,9 +391,6 @@ pub fn run(tier: Tier) -> i32 {
                         kept.push(v);
                     }
                 }
-                if kept.is_empty() {
-                    a.violation_count = 0;
-                }
                 a.violations = kept;
                 rep.acc.merge(a)
             }
@@ -392,8 +399,13 @@ pub fn run(tier: Tier) -> i32 {
                 return 3;
             }
         },
+        Ok(o) if o.status.code() == Some(101) => {
+            // a Rust panic that escaped in vc17 is a harness problem, not a verdict
+            eprintln!("MACHINERY-FAILURE: vc17 panicked: {}", String::from_utf8_lossy(&o.stderr).lines().last().unwrap_or(""));
+            return 3;
+        }
         Ok(o) => {
-            // an abort of the subject under the checking allocator (e.g. heap corruption)
+            // death by signal / abort of the subject under the checking allocator (heap corruption)
             rep.acc.violation(Violation {
                 signature: "native;abort".into(),
                 summary: format!("C17: the native checked-allocator run died: {:?} {}", o.status, String::from_utf8_lossy(&o.stderr).lines().last().unwrap_or("")),
@@ -429,7 +441,15 @@ pub fn run(tier: Tier) -> i32 {
                 miri_runs += n;
             }
             _ => {
-                if stderr.contains("Undefined Behavior") || stderr.contains("memory leaked") || stderr.contains("error: unsupported operation") || stderr.contains("panicked at") {
+                let ub = stderr.contains("Undefined Behavior") || stderr.contains("memory leaked");
+                let panicked = stderr.contains("panicked at");
+                if panicked && !ub && !stderr.contains("overflow") {
+                    // a plain panic (assertion, index out of range) under Miri is a functional
+                    // defect of another property, not memory unsafety; arithmetic overflow is C17's
+                    rep.acc.count("prerequisite_functional_panic_under_miri_(other_property)", 1);
+                    continue;
+                }
+                if ub || panicked {
                     let current = stdout.lines().rev().find_map(|l| l.strip_prefix("MIRI-RUN ")).unwrap_or("?").to_string();
                     // the Miri report starts at the first line beginning with "error" (rustc's build
                     // warnings for the crate come before it) or at a panic message
